@@ -226,10 +226,6 @@ def run_case(case):
                     fail(at, 'world-not-set', 'added processor does not know '
                          'its world', 'the world', repr(p.world))
                     break
-                if p.priority != prio:
-                    fail(at, 'priority-not-honoured', 'priority attribute '
-                         'after add_processor', prio, p.priority)
-                    break
             elif name == 'rmp':
                 t = classes[op[1]]
                 match = [p for ct, p in by_type.items() if issubclass(ct, t)]
